@@ -207,7 +207,7 @@ struct VMutex {
 struct SchedOptions { int bound = 2; int horizon = 3000; int ro_limit = 64; uint64_t max_execs = 0; };
 
 inline const char *status_name(int s) { static const char *n[] = {"running", "ok", "deadlock", "livelock", "horizon", "diverged", "violation", "panic"}; return n[s]; }
-inline const char *kind_name(int k) { static const char *n[] = {"start", "load", "store", "rmw", "lock", "unlock", "pause", "yield", "event"}; return n[k]; }
+inline const char *kind_name(int k) { static const char *n[] = {"start", "load", "store", "rmw", "lock", "unlock", "pause", "yield", "event", "waitflag"}; return n[k]; }
 
 inline std::string sched_string(const std::vector<unsigned char> &ch) { std::string s; for(size_t i = 0; i < ch.size(); i++) { if(i) s += ","; s += std::to_string((int)ch[i]); } return s; }
 inline std::string trace_string(size_t maxpts = 400) {
